@@ -238,7 +238,7 @@ def check_float_writer(ctx, c, body, who):
     ctx.check(fallthrough >= 1, "R1.5", body.loc(), f"{who}|finite-present", f"{who}: no path for finite values")
 
 
-def check_float_reader(ctx, c, body, who, width):
+def check_float_reader(ctx, c, body, who, width, rule="R1.5"):
     """visit_str of a float visitor: 'NaN'/'Infinity'/'-Infinity' -> visit_fNN(NAN/INF/-INF)"""
     cfg = CFG(body)
     seen = {}
@@ -259,13 +259,13 @@ def check_float_reader(ctx, c, body, who, width):
                         pos.add(se[1])
             where = body.loc(t["ln"])
             exp = [k for k, v in SPELL.items() if v == val]
-            ctx.check(len(exp) == 1 and pos == {exp[0]} and f["name"] == f"visit_{width}", "R1.5", where, f"{who}|reads|{val}",
+            ctx.check(len(exp) == 1 and pos == {exp[0]} and f["name"] == f"visit_{width}", rule, where, f"{who}|reads|{val}",
                       f"{who}: produces {val} via {f['name']} when the text equals {sorted(pos)}; expected exactly {exp} and visit_{width}",
                       instance=f"{who}: {sorted(pos)} -> {f['name']}({val})")
             seen[val] = pos
     if not seen:
         return False
-    ctx.check(set(seen) == set(SPELL.values()), "R1.5", body.loc(), f"{who}|reader-complete",
+    ctx.check(set(seen) == set(SPELL.values()), rule, body.loc(), f"{who}|reader-complete",
               f"{who}: non-finite values produced {sorted(seen)}, expected NaN, inf, -inf", instance=f"{who}: three spellings read")
     return bool(seen)
 
